@@ -66,6 +66,7 @@ func newEngine() *promql.Engine {
 
 type promCase struct {
 	Part    string `json:"part"`
+	DB      int    `json:"db,omitempty"` // 0 = the base database, 1 = every sample 2.5 s later (thorough tier)
 	Expr    string `json:"expr"`
 	Instant bool   `json:"instant,omitempty"`
 	StartMs int64  `json:"start_ms"`
@@ -74,13 +75,31 @@ type promCase struct {
 }
 
 func (c promCase) String() string {
-	if c.Instant {
-		return fmt.Sprintf("instant %q at base+%dms", c.Expr, c.StartMs-baseMs)
+	db := ""
+	if c.DB != 0 {
+		db = fmt.Sprintf(" db=%d", c.DB)
 	}
-	return fmt.Sprintf("range %q start=base+%dms end=base+%dms step=%dms", c.Expr, c.StartMs-baseMs, c.EndMs-baseMs, c.StepMs)
+	if c.Instant {
+		return fmt.Sprintf("instant %q at base+%dms%s", c.Expr, c.StartMs-baseMs, db)
+	}
+	return fmt.Sprintf("range %q start=base+%dms end=base+%dms step=%dms%s", c.Expr, c.StartMs-baseMs, c.EndMs-baseMs, c.StepMs, db)
 }
 
 const baseMs = int64(1_700_000_100_000) // multiple of 15 s (the range controller floors start to 15 s)
+
+// promDBVariant: 0 = promDB, 1 = the same series with every sample 2.5 s later (no sample coincides with an
+// evaluation time or a window edge of the grid any more, other samples fall into each window).
+func promDBVariant(v int) *MetricDB {
+	db := promDB()
+	if v == 1 {
+		for i := range db.Series {
+			for j := range db.Series[i].Samples {
+				db.Series[i].Samples[j].TimestampMs += 2500
+			}
+		}
+	}
+	return db
+}
 
 func promDB() *MetricDB {
 	mk := func(offsValue ...float64) []model.Sample {
@@ -492,16 +511,22 @@ func matchWith(m *labels.Matcher, v string, unanchored bool) bool {
 // ---- the check ----
 
 func checkPromQL(r *ev.Run, viol *violations) {
-	db := promDB()
-	tables, err := db.Tables()
-	if err != nil {
-		ev.Fatal("building tables: %v", err)
+	variants := []int{0}
+	if r.Thorough() {
+		variants = []int{0, 1}
 	}
-	cases := promCases(r.Thorough())
-	if r.Replay != "" {
-		cases = nil
+	for _, v := range variants {
+		db := promDBVariant(v)
+		tables, err := db.Tables()
+		if err != nil {
+			ev.Fatal("building tables: %v", err)
+		}
+		cases := promCases(r.Thorough())
+		for i := range cases {
+			cases[i].DB = v
+		}
+		runPromCases(r, viol, db, tables, cases)
 	}
-	runPromCases(r, viol, db, tables, cases)
 }
 
 func runPromCases(r *ev.Run, viol *violations, db *MetricDB, tables *chsim.DB, cases []promCase) {
